@@ -308,6 +308,7 @@ func init() {
 		x.w.Decl("(declare-fun g_signedby (Int " + SSeqI + " " + SSeqI + ") Bool)")
 		_, digest := x.seqOf(st, args[1], cc.Args[1].Type())
 		st.assume(app("g_signedby", iv.Sym, digest, sig))
+		st.ghost["lastsig"] = TV{SSeqI, sig}
 		return []Outcome{{e, TupleV{TV{SSeqI, sEmpty(SSeqI)}, x.freshErr(e, "signerr")}}, {st, TupleV{TV{SSeqI, sig}, nilErr()}}}
 	}
 	externDoc["interface method Sign"] = "crypto.Signer.Sign: returns an error (no signature) or a signature with signedby(signer, digest, sig)"
